@@ -417,27 +417,27 @@ func genStream(t *rapid.T, o streamOpts) Stream {
 	switch o.kind {
 	case "rtsp":
 		s.VClock = 90000
-		s.VStep = rapid.SampledFrom([]int64{3600, 3000, 1800, 3003, 1501, 7200, 89}).Draw(t, "vStep")
+		s.VStep = rapid.SampledFrom([]int64{3600, 3000, 1800, 3003, 1501, 7200}).Draw(t, "vStep")
 		switch s.Audio {
 		case "aac":
 			s.AClock, s.AStep = aacRates[s.AscFreq], 1024
 		case "opus":
 			s.AClock, s.AStep = 48000, rapid.SampledFrom([]int64{960, 480, 1920, 2880}).Draw(t, "aStep")
 		default:
-			s.AClock, s.AStep = 8000, rapid.SampledFrom([]int64{160, 320, 80, 240, 1}).Draw(t, "aStep")
+			s.AClock, s.AStep = 8000, rapid.SampledFrom([]int64{160, 320, 80, 240, 441}).Draw(t, "aStep")
 		}
 	case "gb":
 		s.VClock, s.AClock = 90000, 90000
-		s.VStep = rapid.SampledFrom([]int64{3600, 3000, 1800, 3003, 1501, 7200, 89}).Draw(t, "vStep")
+		s.VStep = rapid.SampledFrom([]int64{3600, 3000, 1800, 3003, 1501, 7200}).Draw(t, "vStep")
 		if s.Audio == "aac" {
 			s.AStep = int64(1024*90000) / int64(aacRates[s.AscFreq])
 		} else {
-			s.AStep = rapid.SampledFrom([]int64{1800, 3600, 900, 1}).Draw(t, "aStep")
+			s.AStep = rapid.SampledFrom([]int64{1800, 3600, 900, 2089}).Draw(t, "aStep")
 		}
 	default:
 		s.VClock, s.AClock = 1000, 1000
-		s.VStep = rapid.SampledFrom([]int64{40, 33, 20, 1, 100}).Draw(t, "vStep")
-		s.AStep = rapid.SampledFrom([]int64{23, 21, 10, 64, 1}).Draw(t, "aStep")
+		s.VStep = rapid.SampledFrom([]int64{40, 33, 20, 17, 100}).Draw(t, "vStep")
+		s.AStep = rapid.SampledFrom([]int64{23, 21, 10, 64, 128}).Draw(t, "aStep")
 	}
 	if s.Audio == "" {
 		s.AClock, s.AStep = 1000, 1
@@ -567,16 +567,17 @@ func genStream(t *rapid.T, o streamOpts) Stream {
 
 const streamName = "c07stream"
 
-var sentinelPayload = []byte{0x72, 'C', '0', '7', '-', 'S', 'E', 'N', 'T', 'I', 'N', 'E', 'L'}
+var sentinelPrefix = []byte{0x72, 'C', '0', '7', '-', 'S', 'E', 'N', 'T', 'I', 'N', 'E', 'L'}
 
 func isSentinel(r lalclient.Rec) bool {
-	return r.Type == 8 && bytes.Equal(r.Payload, sentinelPayload)
+	return r.Type == 8 && bytes.HasPrefix(r.Payload, sentinelPrefix)
 }
 
 type subs struct {
-	s    *inproc.Server
-	rtmp *lalclient.Consumer
-	flv  *lalclient.Consumer
+	s     *inproc.Server
+	rtmp  *lalclient.Consumer
+	flv   *lalclient.Consumer
+	nsync int
 }
 
 func attach(s *inproc.Server) (*subs, *pbt.Violation) {
@@ -610,38 +611,66 @@ type observed struct {
 	recs []lalclient.Rec
 }
 
-// finish closes the observation window: a sentinel audio message is handed to
-// the group's RTMP input callback (the entry every RTMP publisher uses); it
-// travels through the same per-consumer write queue as everything forwarded
-// before, so once a consumer has decoded it nothing older can still arrive.
-// The sentinel is a synchronisation device only, never part of a verdict.
-func (x *subs) finish() ([]observed, *pbt.Violation) {
+// syncEvery is the number of fed packets / frames between two sentinels: it
+// keeps every consumer's backlog far below lal's 1024-entry write queues, so
+// that the premise "the consumer's transport is not back-pressured" holds by
+// construction.
+const syncEvery = 200
+
+// sync hands a numbered sentinel audio message to the group's RTMP input
+// callback (the entry every RTMP publisher uses) and waits until both
+// consumers have decoded it.  It travels through the same per-consumer write
+// queue as everything forwarded before, so once a consumer has decoded it
+// nothing older can still arrive.  The caller must have made sure that lal has
+// consumed the publisher's input (synchronous feed or WaitPeerIdle).  The
+// sentinels are a synchronisation device only: they are removed from the
+// records before anything is judged.
+func (x *subs) sync() *pbt.Violation {
 	if v := x.s.PanicViolation(); v != nil {
-		return nil, v
+		return v
 	}
 	g := x.s.SM.GetGroup("", streamName)
 	if g == nil {
 		lalclient.Harness("c07: group vanished")
 	}
+	x.nsync++
+	payload := append(append([]byte(nil), sentinelPrefix...), byte(x.nsync>>8), byte(x.nsync))
 	if x.s.Call("sentinel", func() {
-		g.OnReadRtmpAvMsg(base.RtmpMsg{Header: base.RtmpHeader{Csid: 6, MsgLen: uint32(len(sentinelPayload)), MsgTypeId: 8, MsgStreamId: 1, TimestampAbs: 1},
-			Payload: append([]byte(nil), sentinelPayload...)})
+		g.OnReadRtmpAvMsg(base.RtmpMsg{Header: base.RtmpHeader{Csid: 6, MsgLen: uint32(len(payload)), MsgTypeId: 8, MsgStreamId: 1, TimestampAbs: 1},
+			Payload: append([]byte(nil), payload...)})
 	}) {
-		return nil, x.s.PanicViolation()
+		return x.s.PanicViolation()
+	}
+	for _, c := range []*lalclient.Consumer{x.rtmp, x.flv} {
+		idx := c.WaitFor(func(r lalclient.Rec) bool { return r.Type == 8 && bytes.Equal(r.Payload, payload) }, 10*time.Second)
+		if idx < 0 {
+			if err := c.Err(); err != nil {
+				return pbt.V("framing/"+c.Kind, "%s consumer: %v", c.Kind, err)
+			}
+			if c.Ended() {
+				return pbt.V("consumer-disconnected/"+c.Kind, "%s consumer was disconnected by lal after %d records", c.Kind, len(c.Recs()))
+			}
+			lalclient.Harness("c07: %s consumer did not receive sentinel %d within 10 s (%d records)", c.Kind, x.nsync, len(c.Recs()))
+		}
+	}
+	return nil
+}
+
+// finish closes the observation window with a last sentinel and returns what
+// every consumer received before it.
+func (x *subs) finish() ([]observed, *pbt.Violation) {
+	if v := x.sync(); v != nil {
+		return nil, v
 	}
 	var out []observed
 	for _, c := range []*lalclient.Consumer{x.rtmp, x.flv} {
-		idx := c.WaitFor(isSentinel, 10*time.Second)
-		if idx < 0 {
-			if err := c.Err(); err != nil {
-				return nil, pbt.V("framing/"+c.Kind, "%s consumer: %v", c.Kind, err)
+		var recs []lalclient.Rec
+		for _, r := range c.Recs() {
+			if !isSentinel(r) {
+				recs = append(recs, r)
 			}
-			if c.Ended() {
-				return nil, pbt.V("consumer-disconnected/"+c.Kind, "%s consumer was disconnected by lal after %d records", c.Kind, len(c.Recs()))
-			}
-			lalclient.Harness("c07: %s consumer did not receive the sentinel within 10 s (%d records)", c.Kind, len(c.Recs()))
 		}
-		out = append(out, observed{kind: c.Kind, recs: c.Recs()[:idx]})
+		out = append(out, observed{kind: c.Kind, recs: recs})
 	}
 	return out, nil
 }
@@ -1044,6 +1073,18 @@ func uniq(in []string) []string {
 		}
 	}
 	return out
+}
+
+// combo is the cross-product label ingest kind x codecs x perturbation.
+func combo(kind string, s *Stream, pert string) string {
+	v, a := s.Video, s.Audio
+	if v == "" {
+		v = "-"
+	}
+	if a == "" {
+		a = "-"
+	}
+	return "combo:" + kind + "/" + v + "+" + a + "/" + pert
 }
 
 func streamLabels(s *Stream) []string {
